@@ -1,5 +1,6 @@
 import EoVerif.Spec.RW
 import EoVerif.Lemmas.RW
+import EoVerif.Lemmas.Chunk
 /-!
 # C06 — chunk framing isolates chunks from over- and under-reads
 -/
@@ -9,7 +10,7 @@ namespace EoVerif.RW
     encodings and sanitised strings (plain or EO-encoded) never contain 0xFF. -/
 theorem no_break_inside (w : Writer) (hs : w.san = true) (f : Field) (hf : f.ok = true) :
     ∃ bs, w.step f.writeOp = ({ w with data := w.data ++ bs }, .ok ()) ∧ 0xFF ∉ bs := by
-  sorry
+  exact ⟨fieldBytes f, field_write w hs f hf⟩
 
 /-- **Isolation**: chunks written with sanitisation on and separated by break bytes are recovered by
     a chunked reader chunk by chunk, whatever the per-chunk read plan: a prefix of a chunk's fields
@@ -21,7 +22,16 @@ theorem isolation (cs : List (List Field)) (plans : List Plan)
     ∃ w, writeAll { san := true } (chunkWrites cs) = .ok w ∧
       (readAll ((Reader.new w.data).step (.setChunked true)).1 (allPlanOps cs plans)).2
         = allPlanExpect cs plans := by
-  sorry
+  cases cs with
+  | nil => exact ⟨_, rfl, rfl⟩
+  | cons c cs =>
+    cases plans with
+    | nil => simp at hlen
+    | cons p ps =>
+      refine ⟨_, chunks_write cs c hok { san := true } rfl, ?_⟩
+      obtain ⟨hfr, hp⟩ := initial_cframe (chunkBytes c) (wireTail cs)
+        (chunkBytes_noFF c (hok c (by simp))) (wireTail_shape cs)
+      exact chunks_read cs c p ps _ [] hok (by simpa using hlen) hfr hp
 
 /-! Non-vacuity / sanity (tests, labelled as such). -/
 def sampleChunks : List (List Field) :=
